@@ -33,6 +33,7 @@ import (
 	"time"
 
 	"github.com/cube2222/octosql/execution"
+	"github.com/cube2222/octosql/logical"
 	"github.com/cube2222/octosql/octosql"
 	"github.com/cube2222/octosql/physical"
 	tvf "github.com/cube2222/octosql/table_valued_functions"
@@ -67,14 +68,26 @@ func (s *c21Source) PushDownPredicates(newPredicates, pushedDownPredicates []phy
 }
 
 func c21SourceNode(n execution.Node, nfields, timeField int) physical.Node {
-	fields := make([]physical.SchemaField, nfields)
+	return c21TypedSourceNode(n, strings.Repeat("T", nfields), timeField, false)
+}
+
+// field types: T = Time, I = Int, U = Time | Null (a union: its TypeID is not TypeIDTime)
+func c21TypedSourceNode(n execution.Node, types string, timeField int, noRetractions bool) physical.Node {
+	fields := make([]physical.SchemaField, len(types))
 	mapping := map[string]string{}
 	for i := range fields {
-		fields[i] = physical.SchemaField{Name: fmt.Sprintf("f%d", i), Type: octosql.Time}
+		t := octosql.Time
+		switch types[i] {
+		case 'I':
+			t = octosql.Int
+		case 'U':
+			t = octosql.TypeSum(octosql.Time, octosql.Null)
+		}
+		fields[i] = physical.SchemaField{Name: fmt.Sprintf("f%d", i), Type: t}
 		mapping[fields[i].Name] = fields[i].Name
 	}
 	return physical.Node{
-		Schema:   physical.NewSchema(fields, timeField),
+		Schema:   physical.NewSchema(fields, timeField, physical.WithNoRetractions(noRetractions)),
 		NodeType: physical.NodeTypeDatasource,
 		Datasource: &physical.Datasource{
 			Name: "script", Alias: "script", DatasourceImplementation: &c21Source{node: n}, VariableMapping: mapping,
@@ -302,7 +315,7 @@ func driveC21(toks []string) string {
 			panic(err)
 		}
 		failAt, budget := c21Atoi(head[6]), c21Atoi(head[7])
-		src := &ScriptNode{Msgs: ParseMsgs(secs[1]), FailAt: failAt}
+		src := &ScriptNode{Msgs: c21ParseMsgs(secs[1]), FailAt: failAt}
 		args := map[string]physical.TableValuedFunctionArgument{
 			"window_length": c21ConstArg(octosql.NewDuration(time.Duration(length))),
 		}
@@ -340,6 +353,8 @@ func driveC21(toks []string) string {
 		}
 		out, status := c21Collect(node, budget)
 		return c21Line(status, c21EncodeMsgs(out, nil))
+	case "schema":
+		return c21DriveSchema(head[1:])
 	case "pollinterval":
 		// poll_interval passed the way the argument matcher declares it (a DESCRIPTOR): Materialize reads
 		// `.Expression.Expression` of that argument — a nil pointer (C07 territory; recorded here as a witness)
@@ -380,6 +395,119 @@ func driveC21(toks []string) string {
 		return c21Line(status, c21EncodeMsgs(out, c21ClockRanks(out)))
 	}
 	return "bad-op"
+}
+
+// schema tumble <tf|im> <idx> <srcTimeField> <noRetr> <types>  |  schema poll <srcTimeField> <noRetr> <types>  |  schema range
+// prints `ok <timeField> <noRetractions> <name>:<T|I|U|?> …` or err:schema — the exported descriptors' OutputSchema
+func c21DriveSchema(a []string) string {
+	bg := context.Background()
+	lenv := logical.Environment{UniqueNameGenerator: map[string]int{}}
+	var schema physical.Schema
+	var err error
+	targ := func(types string, timeField int, noRetr bool) logical.TableValuedFunctionTypecheckedArgument {
+		n := c21TypedSourceNode(&ScriptNode{FailAt: -1}, types, timeField, noRetr)
+		m := map[string]string{}
+		for _, f := range n.Schema.Fields {
+			m[f.Name] = f.Name
+		}
+		return logical.TableValuedFunctionTypecheckedArgument{Mapping: m, Argument: c21TableArg(n)}
+	}
+	types := func(s string) string {
+		if s == "-" {
+			return ""
+		}
+		return s
+	}
+	switch a[0] {
+	case "tumble":
+		args := map[string]logical.TableValuedFunctionTypecheckedArgument{
+			"source":        targ(types(a[5]), c21Atoi(a[3]), a[4] == "1"),
+			"window_length": {Argument: c21ConstArg(octosql.NewDuration(time.Second))},
+		}
+		if a[1] == "tf" {
+			args["time_field"] = logical.TableValuedFunctionTypecheckedArgument{Argument: physical.TableValuedFunctionArgument{
+				TableValuedFunctionArgumentType: physical.TableValuedFunctionArgumentTypeDescriptor,
+				Descriptor:                      &physical.TableValuedFunctionArgumentDescriptor{Descriptor: "f" + a[2]},
+			}}
+		}
+		schema, _, err = tvf.Tumble.Descriptors[0].OutputSchema(bg, physical.Environment{}, lenv, args)
+	case "poll":
+		schema, _, err = tvf.Poll.Descriptors[0].OutputSchema(bg, physical.Environment{}, lenv,
+			map[string]logical.TableValuedFunctionTypecheckedArgument{"source": targ(types(a[3]), c21Atoi(a[1]), a[2] == "1")})
+	case "range":
+		schema, _, err = tvf.Range.Descriptors[0].OutputSchema(bg, physical.Environment{}, lenv, nil)
+	default:
+		return "bad-op"
+	}
+	if err != nil {
+		return "err:schema"
+	}
+	var sb strings.Builder
+	nr := 0
+	if schema.NoRetractions {
+		nr = 1
+	}
+	fmt.Fprintf(&sb, "ok %d %d", schema.TimeField, nr)
+	for _, f := range schema.Fields {
+		c := "?"
+		switch {
+		case f.Type.TypeID == octosql.TypeIDTime:
+			c = "T"
+		case f.Type.TypeID == octosql.TypeIDInt:
+			c = "I"
+		case f.Type.TypeID == octosql.TypeIDUnion:
+			c = "U"
+		}
+		fmt.Fprintf(&sb, " %s:%s", f.Name, c)
+	}
+	return sb.String()
+}
+
+// ---------- streams with instants outside the int64 UnixNano range ----------
+
+// c21ParseMsgs is ParseMsgs, except that a top-level time value `t<ns>:<loc>` may carry any integer (ns since the
+// Unix epoch): times before 1678 / after 2262, before year 1 (the `neg` branch of time.div) …
+func c21ParseMsgs(toks []string) []Msg {
+	var out []Msg
+	for len(toks) > 0 {
+		if toks[0] == ";" {
+			toks = toks[1:]
+			continue
+		}
+		if toks[0][0] == 'W' {
+			ms := ParseMsgs(toks[:1])
+			out = append(out, ms[0])
+			toks = toks[1:]
+			continue
+		}
+		k := c21Atoi(toks[0][1:])
+		toks = toks[1:]
+		vals := make([]octosql.Value, k)
+		for i := 0; i < k; i++ {
+			if v, ok := c21BigTime(toks[0]); ok {
+				vals[i] = v
+				toks = toks[1:]
+				continue
+			}
+			vals[i], toks = ParseValue(toks)
+		}
+		out = append(out, Msg{Rec: execution.Record{Values: vals, Retraction: toks[0] == "-", EventTime: parseEt(toks[1])}})
+		toks = toks[2:]
+	}
+	return out
+}
+
+func c21BigTime(tok string) (octosql.Value, bool) {
+	if tok[0] != 't' {
+		return octosql.Value{}, false
+	}
+	parts := strings.Split(tok[1:], ":")
+	ns, ok := new(big.Int).SetString(parts[0], 10)
+	if !ok || ns.IsInt64() {
+		return octosql.Value{}, false
+	}
+	sec, nsec := new(big.Int).DivMod(ns, c21Billion, new(big.Int)) // Euclidean: 0 <= nsec < 10^9
+	return octosql.NewTime(time.Unix(sec.Int64(), nsec.Int64()).In(locOf(c21Atoi(parts[1])))), true
 }
 
 // ---------- generators ----------
@@ -494,6 +622,7 @@ func c21GenTumble(g *Gen, w *bufio.Writer, edge bool) {
 		eff = 0
 	}
 	var ms []Msg
+	bigToks := map[string]string{} // marker token -> token with an instant outside the int64 UnixNano range
 	for i := 0; i < n; i++ {
 		if g.Chance(1, 4) {
 			ms = append(ms, Msg{IsWM: true, WM: time.Unix(0, c21Instant(g, length, off)).UTC()})
@@ -511,6 +640,11 @@ func c21GenTumble(g *Gen, w *bufio.Writer, edge bool) {
 					loc = Pick(g, []int{1, 2, 101, 103, 98})
 				}
 				vals[j] = c21Time(c21Instant(g, length, off), loc)
+				if g.Chance(1, 6) {
+					marker := int64(7_000_000_000_000_000_000) + int64(len(bigToks))
+					vals[j] = c21Time(marker, loc)
+					bigToks[fmt.Sprintf("t%d:%d", marker, loc)] = fmt.Sprintf("t%s:%d", c21BigInstant(g, length, off), loc)
+				}
 			} else if g.Chance(1, 3) {
 				vals[j] = c21Time(c21Instant(g, length, off), 0)
 			} else {
@@ -530,7 +664,47 @@ func c21GenTumble(g *Gen, w *bufio.Writer, edge bool) {
 	if g.Chance(1, 8) {
 		budget = g.Intn(n + 1)
 	}
-	fmt.Fprintf(w, "tumble %s %d %d %d %s %d %d | %s\n", mode, idx, nfields, length, offS, failAt, budget, EncodeMsgs(ms))
+	stream := EncodeMsgs(ms)
+	for m, b := range bigToks {
+		stream = strings.ReplaceAll(stream, m, b)
+	}
+	fmt.Fprintf(w, "tumble %s %d %d %d %s %d %d | %s\n", mode, idx, nfields, length, offS, failAt, budget, stream)
+}
+
+// instants that time.Time can hold but UnixNano cannot: around Go's zero time (year 1, where time.div switches to
+// its `neg` branch), between year 1 and 1678, after 2262, far away; on / next to window boundaries
+func c21BigInstant(g *Gen, length, off int64) string {
+	z := new(big.Int).Mul(big.NewInt(c21ZeroUnixSec), c21Billion)
+	var x *big.Int
+	switch g.Intn(6) {
+	case 0: // the zero time itself and its neighbours
+		x = new(big.Int).Add(z, big.NewInt(int64(g.Intn(5))-2))
+	case 1: // within a few seconds of year 1
+		x = new(big.Int).Add(z, big.NewInt(int64(g.Intn(8_000_000_000))-4_000_000_000))
+	case 2: // before year 1, on / next to a window boundary: zero + k*len + off + {-1,0,1}, k < 0
+		if length > 0 {
+			k := big.NewInt(-int64(g.Intn(1000)) - 1)
+			x = new(big.Int).Mul(k, big.NewInt(length))
+			x.Add(x, z)
+			x.Add(x, big.NewInt(off))
+			x.Add(x, big.NewInt(int64(g.Intn(3))-1))
+		} else {
+			x = new(big.Int).Sub(z, big.NewInt(int64(g.Intn(1_000_000))))
+		}
+	case 3: // between year 1 and 1678
+		x = new(big.Int).Add(z, new(big.Int).Mul(big.NewInt(int64(g.Intn(1_600))), big.NewInt(31_556_952_000_000_000)))
+		x.Add(x, big.NewInt(int64(g.Intn(1_000_000_000))))
+	case 4: // after 2262
+		x = new(big.Int).Mul(big.NewInt(int64(g.Intn(1_000_000))+9_300_000_000), c21Billion)
+		x.Add(x, big.NewInt(int64(g.Intn(1_000_000_000))))
+	default: // tens of thousands of years before year 1
+		x = new(big.Int).Mul(big.NewInt(-int64(g.Intn(1_000_000_000_000))-70_000_000_000), c21Billion)
+		x.Sub(x, big.NewInt(int64(g.Intn(1_000_000_000))))
+	}
+	if x.IsInt64() {
+		x = new(big.Int).Sub(z, big.NewInt(12345))
+	}
+	return x.String()
 }
 
 func c21Snapshot(g *Gen, retractions bool) []Msg {
@@ -603,6 +777,37 @@ func genC21(g *Gen, tier string, w *bufio.Writer) {
 	} {
 		fmt.Fprintln(w, l)
 	}
+	// declared schemas: every combination over a small universe
+	var typeStrs []string
+	for n := 0; n <= 3; n++ {
+		var rec func(prefix string)
+		rec = func(prefix string) {
+			if len(prefix) == n {
+				if n == 0 {
+					prefix = "-"
+				}
+				typeStrs = append(typeStrs, prefix)
+				return
+			}
+			for _, c := range "TIU" {
+				rec(prefix + string(c))
+			}
+		}
+		rec("")
+	}
+	for _, ts := range typeStrs {
+		for tf := -1; tf <= 2; tf++ {
+			for nr := 0; nr <= 1; nr++ {
+				fmt.Fprintf(w, "schema poll %d %d %s\n", tf, nr, ts)
+				for _, mode := range []string{"tf", "im"} {
+					for idx := -1; idx <= 3; idx++ {
+						fmt.Fprintf(w, "schema tumble %s %d %d %d %s\n", mode, idx, tf, nr, ts)
+					}
+				}
+			}
+		}
+	}
+	fmt.Fprintln(w, "schema range")
 	// tumble
 	nt := 6000
 	if thorough {
